@@ -54,6 +54,7 @@ def right_preds(r="x2", l="x1"):
         OR(B(">", C(r, "b"), K(0)), B("=", C(l, "b"), K(2))), OR(B("=", C(r, "b"), K(5)), ISN(C(r, "a"))),
         NOT(B("=", C(r, "b"), K(5))), B("=", ("case", ISN(C(r, "b")), K(1), K(0), INT), K(1)),
         ("inl", C(r, "b"), [0, 5], False, BOOL), ("inl", C(r, "b"), [0, 5], True, BOOL),
+        ("inx", C(r, "b"), ("lst", C(r, "a"), K(1), INT), False, BOOL), ("inx", C(l, "b"), ("lst", C(r, "a"), C(r, "b"), INT), True, BOOL),
         B(">", C(r, "b"), K(0)), B(">", C(l, "b"), K(0)), AND(ISN(C(r, "a")), B(">", C(l, "b"), K(0))),
         ISN(("bin", "+", C(r, "b"), K(1), INT)), B("=", C(r, "b"), C(l, "b")), OR(B("<", C(r, "b"), C(l, "b")), ISN(C(r, "b"))),
         ("between", C(r, "b"), K(0), K(2), False, BOOL), ("between", C(r, "b"), K(0), K(2), True, BOOL),
@@ -89,6 +90,8 @@ def family():
     both = [OR(B(">", C("x1", "b"), C("x2", "b")), ISN(C("x2", "c", STR))), AND(B("=", C("x1", "a"), C("x2", "a")), B("<>", C("x1", "b"), C("x2", "b"))),
             AND(B("=", C("x1", "a"), C("x2", "a")), B("<>", C("x1", "a"), C("x2", "a"))), OR(B("=", C("x1", "a"), C("x2", "a")), B("=", C("x1", "b"), C("x2", "b"))),
             AND(B("=", C("x1", "a"), C("x2", "a")), ("inl", C("x1", "a"), [1, 2], False, BOOL)),
+            ("inx", C("x1", "a"), ("lst", C("x2", "a"), C("x2", "b"), INT), False, BOOL),
+            AND(B("=", C("x1", "a"), C("x2", "a")), ("inx", C("x1", "b"), ("lst", C("x2", "b"), K(2), INT), True, BOOL)),
             AND(B("=", C("x1", "a"), C("x2", "a")), ("between", C("x2", "a"), K(1), K(2), False, BOOL)),
             AND(B("=", ("bin", "+", C("x1", "a"), K(1), INT), C("x2", "a")), ISN(C("x1", "b"), True))]
     for p in both:
